@@ -43,7 +43,7 @@ def replay(inst, g, behs, d, tag="beh", timeout_ms=10000, trace=True, hard_timeo
     return replay_doc(doc, d, tag, timeout_ms, trace, hard_timeout)
 
 
-def replay_doc(doc, d, tag="beh", timeout_ms=10000, trace=True, hard_timeout=1200):
+def replay_doc(doc, d, tag="beh", timeout_ms=10000, trace=True, hard_timeout=1200, max_bad=3):
     path = os.path.join(d, tag + ".json")
     json.dump(doc, open(path, "w"))
     trace_path = os.path.join(d, tag + ".trace.ndjson")
@@ -54,7 +54,7 @@ def replay_doc(doc, d, tag="beh", timeout_ms=10000, trace=True, hard_timeout=120
     n = len(doc["behaviours"])
     t_end = time.time() + hard_timeout
     while start < n:
-        cmd = [REPLAY, path, "--from", str(start), "--timeout-ms", str(timeout_ms)]
+        cmd = [REPLAY, path, "--from", str(start), "--timeout-ms", str(timeout_ms), "--fail-fast"]
         if trace:
             cmd += ["--trace", trace_path]
         try:
@@ -75,7 +75,10 @@ def replay_doc(doc, d, tag="beh", timeout_ms=10000, trace=True, hard_timeout=120
             results.append({"index": start, "id": doc["behaviours"][start]["id"], "outcome": "error",
                             "got": "replay process ended with %s without a result" % rc, "tail": "hung"})
         start = nxt
-        if time.time() > t_end:
+        ends = {b["id"]: b.get("end") for b in doc["behaviours"]}
+        nbad = sum(1 for r in results if r["outcome"] != "followed"
+                   or (r.get("tail") == "hung") != (ends.get(r["id"]) == "deadlock"))
+        if time.time() > t_end or nbad >= max_bad:
             break
     return results, path, trace_path
 
